@@ -87,7 +87,7 @@ structure Inv (s : State) : Prop where
   discInv : ∀ k, (s.task k).discarded = true → (s.task k).accepted = true ∧ (s.task k).started = false
   ranArg : ∀ k, (s.task k).started = true → (s.task k).ranWith = some (s.task k).arg
   /- only finitely many threads exist -/
-  finSupp : ∃ N, ∀ u, N ≤ u → s.pc u = .none
+  finSupp : ∃ N : Nat, ∀ u : Nat, N ≤ u → s.pc u = .none
 
 /-- case analysis on `h : step s l = some s'`: one goal per enabled transition, with `s'` replaced
 by the explicit successor state -/
